@@ -436,7 +436,13 @@ type c05World struct {
 	// (about every 2 ms), so that the flush worker rotates the unit and writes
 	// the database all the time, like at every hour boundary.
 	rotate bool
-	t      *testing.T
+	// gated: as norecurse, with one outdated filter list whose download (the
+	// periodic refresh of the updates loop, 5 s after the start) is held back
+	// by a local HTTP server until release is closed.
+	gated   bool
+	entered chan struct{}
+	release chan struct{}
+	t       *testing.T
 	srv      *Server
 	flt      *filtering.DNSFilter
 	st       *stats.StatsCtx
@@ -555,10 +561,11 @@ func c05StartUpstream(t *testing.T) (addr string) {
 }
 
 func c05NewWorld(t *testing.T, dir string, wiring string) (w *c05World) {
-	norecurse := wiring == "norecurse" || wiring == "blockhost" || wiring == "rotate"
+	norecurse := wiring == "norecurse" || wiring == "blockhost" || wiring == "rotate" || wiring == "gated"
 	w = &c05World{
 		t: t, handlers: map[string]http.HandlerFunc{}, dir: dir, norecurse: norecurse,
-		blockhost: wiring == "blockhost", rotate: wiring == "rotate",
+		blockhost: wiring == "blockhost", rotate: wiring == "rotate", gated: wiring == "gated",
+		entered: make(chan struct{}), release: make(chan struct{}),
 	}
 	ctx := context.Background()
 	logger := slogutil.NewDiscardLogger()
@@ -607,6 +614,20 @@ func c05NewWorld(t *testing.T, dir string, wiring string) (w *c05World) {
 		FiltersUpdateIntervalHours: 24,
 		Rewrites: []*filtering.LegacyRewrite{{Domain: "rewritten.example", Answer: "10.1.1.1"}},
 		UserRules: []string{"||user-blocked.example^"},
+	}
+	if w.gated {
+		var once sync.Once
+		srv := httptest.NewServer(http.HandlerFunc(func(rw http.ResponseWriter, _ *http.Request) {
+			once.Do(func() { close(w.entered) })
+			<-w.release
+			_, _ = rw.Write([]byte("||refreshed.example^\n||another.example^\n"))
+		}))
+		t.Cleanup(srv.Close)
+		fconf.HTTPClient = &http.Client{Timeout: time.Minute}
+		fconf.FiltersUpdateIntervalHours = 1
+		fconf.Filters = []filtering.FilterYAML{{
+			Enabled: true, URL: srv.URL + "/list.txt", Name: "gated list", Filter: filtering.Filter{ID: 1},
+		}}
 	}
 	if norecurse && !w.blockhost {
 		fconf.SafeBrowsingBlockHost, fconf.ParentalBlockHost = "192.0.2.10", "192.0.2.11"
